@@ -85,6 +85,10 @@ FUNCS = [
     ('src/iterator/component_iterator.rs', r'fn add_instr_at\b', 'compiter_add_instr_at', 'text', r"impl<'b> Instrumenter<'b> for ComponentIterator"),
     ('src/iterator/component_iterator.rs', r'fn empty_alternate_at\b', 'compiter_empty_alternate_at', 'text', r"impl<'b> Instrumenter<'b> for ComponentIterator"),
     ('src/iterator/component_iterator.rs', r'fn empty_block_alt_at\b', 'compiter_empty_block_alt_at', 'text', r"impl<'b> Instrumenter<'b> for ComponentIterator"),
+    # the key of the type-interning map: equality and hash must look at the same things (C13; a disagreement makes the outcome of a
+    # lookup depend on the hash seed: C04)
+    ('src/ir/module/module_types.rs', r'fn hash\b', 'types_hash', 'text', r'impl Hash for Types \{'),
+    ('src/ir/module/module_types.rs', r'fn eq\b', 'types_eq', 'text', r'impl PartialEq for Types \{'),
     ('src/ir/module/module_functions.rs', r'pub fn add_instr\b', 'localfn_add_instr', 'text'),
     ('src/ir/module/module_functions.rs', r'pub fn clear_instr_at\b', 'localfn_clear_instr_at', 'text'),
     ('src/ir/types.rs', r'pub fn clear_instr\b', 'body_clear_instr', 'text', r"impl<'a, 'b> Body<'a>"),
